@@ -281,6 +281,52 @@ Definition supported_al (gens : nat) (al : alist) (s : stmt) : bool :=
 
 Definition wf_alist (al : alist) : bool := forallb (fun p => wf_attr (snd p)) al.
 
+(** * Request anchors: matching the claims of a presentation against the anchored request
+    (web3id/v1/anchor/verify.rs [verify_request_subject_claims], [verify_request_subject_claims_list]) *)
+
+Local Open Scope N_scope.
+Inductive cred_kind := KAccount | KIdentity.
+Definition kind_eqb (a b : cred_kind) : bool :=
+  match a, b with KAccount, KAccount | KIdentity, KIdentity => true | _, _ => false end.
+
+(** an allowed issuer: identity provider index AND network (one entry) *)
+Record issuer_did := Did { did_ip : N; did_net : N }.
+Record req_claims := ReqClaims { rq_stmts : list stmt; rq_issuers : list issuer_did; rq_source : list cred_kind }.
+Record pres_claims := PresClaims { pc_kind : cred_kind; pc_issuer : N; pc_net : N; pc_stmts : list stmt }.
+Inductive match_result := MOk | MFailType | MFailIssuer | MFailClaims.
+
+(** [statement_to_requested_statement]: an attribute-value statement answers a reveal request *)
+Definition to_requested (s : stmt) : stmt := match s with SValue t _ => SReveal t | x => x end.
+
+Definition attr_eq_dec : forall a b : attr, {a = b} + {a <> b}.
+Proof. decide equality; try apply N.eq_dec. apply (list_eq_dec N.eq_dec). Defined.
+Definition stmt_eq_dec : forall a b : stmt, {a = b} + {a <> b}.
+Proof. decide equality; try apply N.eq_dec; try apply attr_eq_dec; apply (list_eq_dec attr_eq_dec). Defined.
+Definition stmts_eqb (a b : list stmt) : bool := if list_eq_dec stmt_eq_dec a b then true else false.
+
+(** ONE entry has to match both fields *)
+Definition issuer_allowed (rq : req_claims) (pc : pres_claims) : bool :=
+  existsb (fun d => (did_ip d =? pc_issuer pc) && (did_net d =? pc_net pc)) (rq_issuers rq).
+(** the weaker, field-wise reading (some entry has the provider, some entry has the network) *)
+Definition issuer_allowed_fieldwise (rq : req_claims) (pc : pres_claims) : bool :=
+  existsb (fun d => did_ip d =? pc_issuer pc) (rq_issuers rq)
+  && existsb (fun d => did_net d =? pc_net pc) (rq_issuers rq).
+
+Definition claims_match (rq : req_claims) (pc : pres_claims) : match_result :=
+  if negb (existsb (kind_eqb (pc_kind pc)) (rq_source rq)) then MFailType
+  else if negb (issuer_allowed rq pc) then MFailIssuer
+  else if negb (stmts_eqb (map to_requested (pc_stmts pc)) (rq_stmts rq)) then MFailClaims
+  else MOk.
+
+(** [zip_longest]: lists of different length never match; the first failure is reported *)
+Fixpoint claims_list_match (rqs : list req_claims) (pcs : list pres_claims) : match_result :=
+  match pcs, rqs with
+  | [], [] => MOk
+  | pc :: pcs', rq :: rqs' =>
+      match claims_match rq pc with MOk => claims_list_match rqs' pcs' | e => e end
+  | _, _ => MFailClaims
+  end.
+
 (** * Transcripts: labelled byte strings and the two framings *)
 
 Local Open Scope N_scope.
